@@ -741,9 +741,9 @@ Proof. intros r g g' H. exact H. Qed.
 Fixpoint always_checks (e : ep) : bool :=
   match e with
   | E_random_tensor | E_random_cp | E_random_tucker | E_random_tt | E_random_tr | E_random_parafac2
-  | E_range_finder | E_randomized_svd
-  | E_initialize_cp | E_parafac | E_nn_parafac | E_nn_parafac_hals | E_constrained_parafac | E_randomised_parafac
-  | E_sample_khatri_rao | E_parafac2 | E_tr_als | E_tr_als_sampled | E_tt_cross
+  | E_check_random_state | E_range_finder | E_randomized_svd
+  | E_initialize_cp | E_parafac | E_nn_parafac | E_nn_parafac_hals | E_constrained_parafac | E_initialize_constrained | E_randomised_parafac
+  | E_parafac2 | E_tr_als | E_tr_als_sampled | E_tt_cross
   | E_cp_regressor | E_tucker_regressor => true
   | E_estimator e' => always_checks e'
   | _ => false
@@ -766,9 +766,9 @@ Definition no_random_choice (o : opts) : bool :=
 Fixpoint deterministic_family (e : ep) : bool :=
   match e with
   | E_svd_interface
-  | E_initialize_cp | E_parafac | E_nn_parafac | E_nn_parafac_hals | E_constrained_parafac
+  | E_initialize_cp | E_parafac | E_nn_parafac | E_nn_parafac_hals | E_constrained_parafac | E_initialize_constrained
   | E_initialize_tucker | E_partial_tucker | E_tucker | E_nn_tucker | E_nn_tucker_hals
-  | E_parafac2 | E_rng_free => true
+  | E_parafac2 | E_parafac2_init | E_compute_projections | E_rng_free => true
   | E_estimator e' => deterministic_family e'
   | _ => false
   end.
